@@ -109,16 +109,27 @@ func runC05(req *radius.Packet, maxErr int, skip bool, hist [][]byte, slow bool)
 	}
 	defer peer.Close()
 	client := &radius.Client{Retry: 0, MaxPacketErrors: maxErr, InsecureSkipVerify: skip}
+	if c05UseDefault {
+		// the package-level function and its DefaultClient (Retry one second: no resend within these runs'
+		// pacing would matter — the peer ignores repeated requests)
+		client = nil
+	}
 	// history: for every second case the same Client value has completed another exchange before (with
 	// another secret, identifier and a long reply); a Client carries configuration only
-	if (int(req.Identifier)+len(hist))%2 == 0 {
+	if client != nil && (int(req.Identifier)+len(hist))%2 == 0 {
 		priorExchangeC05(client)
 	}
 	ctx, cancel := context.WithTimeout(context.Background(), 8*time.Second)
 	defer cancel()
 	done := make(chan c05res, 1)
 	go func() {
-		p, err := client.Exchange(ctx, req, peer.LocalAddr().String())
+		var p *radius.Packet
+		var err error
+		if client == nil {
+			p, err = radius.Exchange(ctx, req, peer.LocalAddr().String())
+		} else {
+			p, err = client.Exchange(ctx, req, peer.LocalAddr().String())
+		}
 		done <- c05res{p, err}
 	}()
 	buf := make([]byte, 8192)
@@ -219,13 +230,23 @@ func showHistoryC05(h [][]byte) string {
 	return strings.Join(parts, ",")
 }
 
+var c05UseDefault bool
+
 func evalC05(op string, args []string) string {
 	if op != "exchange" || len(args) != 8 {
 		return "UNKNOWN-OP"
 	}
 	req := mkPacket(args[0], args[1], args[2], args[3], args[4])
-	maxErr := atoi(args[5])
+	useDefault := args[5] == "default"
+	maxErr := 10
+	if !useDefault {
+		maxErr = atoi(args[5])
+	}
 	skip := atoi(args[6]) != 0
+	if useDefault && skip {
+		return "BAD-CASE"
+	}
+	c05UseDefault = useDefault
 	hist := parseHistoryC05(args[7])
 	r, dropped := runC05(req, maxErr, skip, hist, false)
 	// A datagram lost or delayed by the kernel can only make the call look undecided (or, if the kernel
@@ -486,6 +507,14 @@ func genC05(g *Gen, tier string, emit func(op string, args ...string)) {
 		if L > 0 && !g.Chance(1, 4) {
 			genuineAt = g.Intn(L)
 		}
+		// budgets beyond a handful, at their thresholds: budget-1 / budget / budget+1 bad datagrams, then
+		// the genuine reply (a counter narrower than int, a clamp)
+		if c%16 == 5 {
+			maxErr = g.Pick(10, 11, 16, 40, 255, 256, 257)
+			skip = false
+			L = maxErr + g.Pick(-1, 0, 1) + 1
+			genuineAt = L - 1
+		}
 		// "never on their account when the budget is zero": long runs of bad datagrams (beyond any plausible
 		// built-in default), the genuine reply last
 		if c%8 == 7 {
@@ -511,7 +540,12 @@ func genC05(g *Gen, tier string, emit func(op string, args ...string)) {
 			}
 			hist = append(hist, d)
 		}
+		budget := itoa(maxErr)
+		if c%16 == 11 {
+			// through the package-level radius.Exchange: DefaultClient's budget (10) applies
+			budget, skip = "default", false
+		}
 		emit("exchange", itoa(reqCode), itoa(int(req.Identifier)), hx(auth), hx(secret), showAVPs(reqAttrs),
-			itoa(maxErr), map[bool]string{false: "0", true: "1"}[skip], showHistoryC05(hist))
+			budget, map[bool]string{false: "0", true: "1"}[skip], showHistoryC05(hist))
 	}
 }
